@@ -551,6 +551,15 @@ impl<F: Field + PrimeCharacteristicRing + Copy, const D: usize> AluAir<F, D> {
                             for s in 0..num_int {
                                 let i0 = *first_idx + step;
                                 let i1 = *first_idx + step + 1;
+                                // A packed row of arity `k < K_max` has fewer steps than the
+                                // `num_int` intermediate slots; the unused slots keep the last
+                                // accumulator (their constraints are gated by `sel_k`).
+                                if i0 >= *first_idx + k {
+                                    let off = extra + s * D;
+                                    values[off..off + D]
+                                        .copy_from_slice(acc.as_basis_coefficients_slice());
+                                    continue;
+                                }
                                 let v0 = &trace.values[i0];
                                 if i1 < *first_idx + k {
                                     let v1 = &trace.values[i1];
